@@ -51,9 +51,10 @@ type H struct {
 }
 
 type Op struct {
-	K      string `json:"k"`             // node | pass | edge | branch | compile
-	ID     int    `json:"id"`            // position in the reference order (nodes first)
-	Key    int    `json:"key,omitempty"` // node key (>= 2); 0 = START, 1 = END
+	K      string `json:"k"`              // node | pass | edge | branch | compile
+	Kind   int    `json:"kind,omitempty"` // node: 0 Invoke 1 Stream 2 Collect 3 Transform lambda, 4 a sub graph START -> lambda -> END; branch: 0 multi branch, 1 stream multi branch
+	ID     int    `json:"id"`             // position in the reference order (nodes first)
+	Key    int    `json:"key,omitempty"`  // node key (>= 2); 0 = START, 1 = END
 	In     string `json:"in,omitempty"`
 	Out    string `json:"out,omitempty"`
 	Pre    *H     `json:"pre,omitempty"`
@@ -963,6 +964,18 @@ func (engine) Run(ci any) lib.Result {
 				used[h.Ty] = true
 			}
 		}
+	}
+	kinds := map[string]bool{}
+	for _, o := range c.Ops {
+		if o.K == "node" {
+			kinds[[]string{"invoke", "stream", "collect", "transform", "subgraph"}[o.Kind%5]] = true
+		}
+		if o.K == "branch" && o.Kind == 1 {
+			kinds["streambranch"] = true
+		}
+	}
+	for k := range kinds {
+		tags = append(tags, "kind:"+k)
 	}
 	for t := range used {
 		tags = append(tags, "ty:"+t)
